@@ -366,35 +366,53 @@ def exponent (t : List Nat) : Int × List Nat :=
     None of them can be part of anything `strtod` reads. -/
 def isStop (c : Nat) : Bool := isSpace c || c == 44 || c == 93 || c == 125
 
+def notStop (c : Nat) : Bool := !isStop c
+
+/-- The mantissa `strtod` reads: the digits before the point, the digits
+    after it (the point itself is read even without digits after it), the rest. -/
+def scanMantissa (t : List Nat) : List Nat × List Nat × List Nat :=
+  match t.dropWhile isDigit with
+  | d :: u =>
+    if d = 46 then (t.takeWhile isDigit, u.takeWhile isDigit, u.dropWhile isDigit)
+    else (t.takeWhile isDigit, [], d :: u)
+  | [] => (t.takeWhile isDigit, [], [])
+
+/-- `is_decimal` refuses a consumed text of `m` characters (not counting the
+    sign) that starts with `0` not followed by `.` -/
+def leadingZero (t : List Nat) (m : Nat) : Bool :=
+  t.head? == some 48 && decide (m > 1) && t[1]? != some 46
+
+/-- `numCore` after the sign: `s` is the whole text (what "no conversion"
+    leaves unread), `t` the text after the optional `-`. -/
+def numBody (neg : Bool) (s t : List Nat) : Res (Json × List Nat) :=
+  if prefixCI [105, 110, 102] t || prefixCI [110, 97, 110] t then .fail      -- -inf / -nan: IS_NUMBER_INVALID
+  else if isHexFloat t then .fail                                             -- consumed text fails is_decimal
+  else
+    match scanMantissa t with
+    | (ip, fp, t2) =>
+      if ip.isEmpty && fp.isEmpty then .ok (.number 0 0, s)                   -- no conversion: end = nptr, value 0
+      else
+        match exponent t2 with
+        | (ex, t3) =>
+          if leadingZero t (t.length - t3.length) then .fail                  -- is_decimal
+          else
+            match mkNum neg (digitsVal (ip ++ fp)) (ip.length + fp.length) (ex - (fp.length : Int)) with
+            | some (n, k) => .ok (.number n k, t3)
+            | none => .unsup
+
 /-- `parse_number_value` on a text without stop characters: `strtod`, the
     `ERANGE`/`HUGE_VAL` test, `is_decimal` on the consumed text and
     `json_value_init_number` (NULL for inf/nan).  The text starts with `-` or a digit. -/
 def numCore (s : List Nat) : Res (Json × List Nat) :=
-  let neg := s.head? = some 45
-  let t := if neg then s.tail else s
-  if prefixCI [105, 110, 102] t || prefixCI [110, 97, 110] t then .fail      -- -inf / -nan: IS_NUMBER_INVALID
-  else if isHexFloat t then .fail                                             -- consumed text fails is_decimal
-  else
-    let ip := t.takeWhile isDigit
-    let t1 := t.dropWhile isDigit
-    let fp := match t1 with | d :: u => if d = 46 then u.takeWhile isDigit else [] | [] => []
-    let t2 := match t1 with | d :: u => if d = 46 then u.dropWhile isDigit else t1 | [] => t1
-    if ip.isEmpty ∧ fp.isEmpty then .ok (.number 0 0, s)                      -- no conversion: end = nptr, value 0
-    else
-      let (ex, t3) := exponent t2
-      let m := t.length - t3.length                                          -- consumed, without the sign
-      -- is_decimal: leading zero not followed by '.'
-      if t.head? = some 48 ∧ m > 1 ∧ t[1]? ≠ some 46 then .fail
-      else
-        match mkNum neg (digitsVal (ip ++ fp)) (ip.length + fp.length) (ex - (fp.length : Int)) with
-        | some (n, k) => .ok (.number n k, t3)
-        | none => .unsup
+  match s with
+  | [] => numBody false s s
+  | c :: t => if c = 45 then numBody true s t else numBody false s s
 
 /-- `parse_number_value`.  What `strtod` reads ends at the latest before the
     first stop character (it is the longest prefix of number form, and no stop
     character occurs in one), so the text up to there decides. -/
 def parseNumber (s : List Nat) : Res (Json × List Nat) :=
-  (numCore (s.takeWhile fun c => !isStop c)).bind fun (v, r) => .ok (v, r ++ s.dropWhile fun c => !isStop c)
+  (numCore (s.takeWhile notStop)).bind fun (v, r) => .ok (v, r ++ s.dropWhile notStop)
 
 /-- `parse_string_value`, `parse_boolean_value`, `parse_number_value`,
     `parse_null_value` as `parse_value` dispatches to them on the first character. -/
